@@ -108,9 +108,25 @@ def run(ctx):
             det = "non-zero side stores Err in the shared result on every path" if ok else "a non-zero job status can complete the wrapper without storing Err"
         ctx.ob("R5.2", "%s|%s|nonzero-stores-Err" % (S.key, k), ok, where=w.span, detail=det)
     # final value of the scheduler derives from the shared result cell
-    rets = [i for i in ba.calls(r"core::cell::Cell::replace") if S.blocks[i]["term"]["dest"]["l"] == 0]
-    ctx.ob("R5.2", "%s|returns-shared-result" % S.key, len(rets) >= 1 and all(ba.dominates(d, r) for r in rets for d in common.drain_ready_blocks(S)),
-           where=ctx.where(S, rets[0]) if rets else S.span, detail="scheduler's value is result.replace(..) taken after the drain" if rets else "scheduler does not return the shared result")
+    O = anchors.stream_owner(prog)
+    oba = BA.of(O)
+    rets = [i for i in oba.calls(r"core::cell::Cell::replace") if O.blocks[i]["term"]["dest"]["l"] == 0]
+    ctx.ob("R5.2", "%s|returns-shared-result" % O.key, len(rets) >= 1 and all(oba.dominates(d, r) for r in rets for d in common.drain_ready_blocks(O)),
+           where=ctx.where(O, rets[0]) if rets else O.span, detail="the scheduler's value is result.replace(..) taken after the drain" if rets else "the scheduler does not return the shared result")
+    # an error of the passes themselves is not swallowed: every other return of the owner after the passes is an Err/`?`
+    if O.key != S.key:
+        aw = [r for (p_, y, r, c) in oba.awaits() if c == S.key and r is not None]
+        sl = set()
+        tsites = [(br, brk, cont, src) for (br, brk, cont, src) in oba.try_sites() if aw and any(oba.dominates(a, br) for a in aw)]
+        # the value of the passes is examined with `?` after the drain
+        ok = False
+        for (br, brk, cont, src) in tsites:
+            t = O.blocks[br]["term"]
+            bl, org, _ = backward_direct(O, op_local(t["args"][0]), depth=80)
+            if any(o[0] == "call" and any(p.endswith("future::future::Future::poll") or p == S.key for p in callee_paths(o[2])) for o in org):
+                ok = all(oba.dominates(d, br) for d in common.drain_ready_blocks(O))
+        ctx.ob("R5.2", "%s|passes-error-propagated-after-drain" % O.key, ok, where=O.span,
+               detail="the result of the scheduling passes is propagated with `?` after the drain" if ok else "an error of the scheduling passes is dropped or returned before the drain")
     for k, i in common.ordinal_keys([("Cell::set", i) for i in ba.calls(r"core::cell::Cell::set")]):
         t = S.blocks[i]["term"]
         if "Result<(), error::RedoError>" not in t["arg_tys"][1]:
